@@ -29,7 +29,14 @@ import (
 	"github.com/wader/fq/zzverif/sim/instr"
 )
 
-const repoDir = "/repo"
+// repoDir is the tree under test: /repo, or (VERIF_REPO) a scratch worktree of it
+// when a seeded change is evaluated without touching /repo.
+var repoDir = func() string {
+	if d := os.Getenv("VERIF_REPO"); d != "" {
+		return d
+	}
+	return "/repo"
+}()
 
 // verifDir is where this checkout of the verification tree lives (VERIF_DIR
 // lets a git worktree of /verif use its own sources).
@@ -167,6 +174,16 @@ func doBuild(needRace bool) *build {
 			os.WriteFile(filepath.Join(verifDir, "go.sum"), append(sum, mine...), 0o644)
 		}
 	}
+	var modArgs []string
+	if repoDir != "/repo" {
+		// same module graph, the fq module replaced by the scratch tree
+		gm, _ := os.ReadFile(filepath.Join(verifDir, "go.mod"))
+		gm = bytes.ReplaceAll(gm, []byte("=> /repo"), []byte("=> "+repoDir))
+		os.WriteFile(filepath.Join(dir, "go.mod"), gm, 0o644)
+		gs, _ := os.ReadFile(filepath.Join(verifDir, "go.sum"))
+		os.WriteFile(filepath.Join(dir, "go.sum"), gs, 0o644)
+		modArgs = []string{"-modfile=" + filepath.Join(dir, "go.mod")}
+	}
 	var wg sync.WaitGroup
 	var errPlain, errRace error
 	var outPlain, outRace []byte
@@ -174,7 +191,7 @@ func doBuild(needRace bool) *build {
 	wg.Add(1)
 	go func() {
 		defer wg.Done()
-		cmd := exec.Command("go", "build", "-overlay", b.overlay, "-o", b.plain, "./sim/cmd/simw")
+		cmd := exec.Command("go", append(append([]string{"build"}, modArgs...), "-overlay", b.overlay, "-o", b.plain, "./sim/cmd/simw")...)
 		cmd.Dir = verifDir
 		cmd.Env = goEnv()
 		outPlain, errPlain = cmd.CombinedOutput()
@@ -184,7 +201,7 @@ func doBuild(needRace bool) *build {
 		wg.Add(1)
 		go func() {
 			defer wg.Done()
-			cmd := exec.Command("go", "build", "-race", "-overlay", b.overlay, "-o", b.race, "./sim/cmd/simw")
+			cmd := exec.Command("go", append(append([]string{"build", "-race"}, modArgs...), "-overlay", b.overlay, "-o", b.race, "./sim/cmd/simw")...)
 			cmd.Dir = verifDir
 			cmd.Env = goEnv()
 			outRace, errRace = cmd.CombinedOutput()
@@ -272,7 +289,7 @@ func runStage(b *build, prop string, st Stage, tier string, seed uint64, workers
 				if workers > 8 {
 					spin = "0" // more workers than half the cores: spinning would only steal cycles
 				}
-				cmd.Env = append(os.Environ(), "GOMAXPROCS=4", "GORACE=halt_on_error=1 exitcode=66", "GOTRACEBACK=all", "SIMRT_SPIN="+spin)
+				cmd.Env = append(os.Environ(), "GOMAXPROCS=4", "GORACE=halt_on_error=1 exitcode=66", "GOTRACEBACK=all", "SIMRT_SPIN="+spin, "VERIF_REPO="+repoDir)
 				var stderr bytes.Buffer
 				cmd.Stderr = &stderr
 				cmd.Stdout = nil
@@ -566,7 +583,11 @@ func check(id, tier string) int {
 	var unreproduced []string
 	var knownHit []string
 	exit := 0
-	os.MkdirAll(filepath.Join(verifDir, "replays"), 0o755)
+	replayDir := filepath.Join(verifDir, "replays")
+	if repoDir != "/repo" {
+		replayDir = filepath.Join(os.TempDir(), "fqsim-scratch-replays")
+	}
+	os.MkdirAll(replayDir, 0o755)
 	for _, c := range order {
 		rp := byClass[c]
 		if what, ok := known.match(rp.Violation); ok {
@@ -576,7 +597,7 @@ func check(id, tier string) int {
 			continue
 		}
 		// confirm in a fresh process
-		path := filepath.Join(verifDir, "replays", fmt.Sprintf("%s-%s.json", id, shortHash(c)))
+		path := filepath.Join(replayDir, fmt.Sprintf("%s-%s.json", id, shortHash(c)))
 		jb, _ := json.MarshalIndent(rp, "", " ")
 		os.WriteFile(path, jb, 0o644)
 		// the whole-fq harnesses inherit some nondeterminism from Go map iteration inside
@@ -673,7 +694,7 @@ func runReplay(b *build, path string) (int, string) {
 		}
 		cmd = exec.Command(bin, args...)
 	}
-	cmd.Env = append(os.Environ(), "GOMAXPROCS=4", "GORACE=halt_on_error=1 exitcode=66", "GOTRACEBACK=all")
+	cmd.Env = append(os.Environ(), "GOMAXPROCS=4", "GORACE=halt_on_error=1 exitcode=66", "GOTRACEBACK=all", "VERIF_REPO="+repoDir)
 	out, err := cmd.CombinedOutput()
 	code := 0
 	if ee, ok := err.(*exec.ExitError); ok {
@@ -821,8 +842,13 @@ func writeEvidence(id, tier string, seed uint64, plan Plan, b *build, stages []*
 		"violations":  nViol,
 	}
 	jb, _ := json.MarshalIndent(ev, "", " ")
-	os.MkdirAll(filepath.Join(verifDir, "evidence"), 0o755)
-	if err := os.WriteFile(filepath.Join(verifDir, "evidence", id+".json"), jb, 0o644); err != nil {
+	evDir := filepath.Join(verifDir, "evidence")
+	if repoDir != "/repo" {
+		// a run against a scratch tree is not evidence about /repo
+		evDir = filepath.Join(os.TempDir(), "fqsim-scratch-evidence")
+	}
+	os.MkdirAll(evDir, 0o755)
+	if err := os.WriteFile(filepath.Join(evDir, id+".json"), jb, 0o644); err != nil {
 		fatal2("writing evidence: %v", err)
 	}
 }
